@@ -41,6 +41,17 @@ class Check(BaseCheck):
             mode = ["unit", "unit", "offset", "tiny"][int(rng.integers(0, 4))]
             shape = lambda a: {"unit": a, "offset": 1e4 + 1e-2 * a, "tiny": 1e-9 * a}[mode]   # noqa: E731
             vf = shape(rng.normal(size=(len(v), cols))); tf = shape(rng.normal(size=(len(t), cols)))
+            pat = str(rng.choice(["generic", "generic", "generic", "all-zero", "zero-column", "constant", "one-hot"]))
+            if pat != "generic" and vf.dtype.kind == "f":          # value patterns: the operators are linear, exact zeros and constants are ordinary input
+                vf = np.array(vf); tf = np.array(tf)
+                if pat == "all-zero":
+                    vf[...] = 0.0; tf[...] = 0.0
+                elif pat == "zero-column":
+                    vf[:, -1] = 0.0; tf[:, -1] = 0.0
+                elif pat == "constant":
+                    vf[...] = -2.5; tf[...] = 1.0
+                else:
+                    vf[...] = 0.0; vf[0] = 1.0; tf[...] = 0.0; tf[0] = 1.0
             fdt = "float64"
             if mode == "unit" and rng.random() < 0.4:       # integer-typed functions (labels, counts): same values for the model
                 fdt = "int64"; vf = np.round(3 * vf); tf = np.round(3 * tf)
